@@ -97,5 +97,5 @@ var (
 )
 
 func TestVerifC12V1Seq(t *testing.T) {
-	c12kit.RunSeq(c12Adapter{}, "v1-seq", 75*time.Second, 18*time.Minute, c12Quick, c12Thorough)
+	c12kit.RunSeq(c12Adapter{}, "v1-seq", 100*time.Second, 15*time.Minute, c12Quick, c12Thorough)
 }
